@@ -8,7 +8,7 @@
 From Coq Require Import ZArith NArith List Bool String.
 From Coq Require Extraction.
 From Coq Require Import ExtrOcamlBasic ExtrOcamlString.
-From HV Require Import Base.Keccak Spec.StorageSpec Gen.GenStoreConsts Gen.GenHashes Model.StorageModel.
+From HV Require Import Base.Keccak Spec.StorageSpec Gen.GenStoreConsts Gen.GenHashes Gen.GenStoreAxioms Model.StorageModel.
 Import ListNotations.
 Open Scope Z_scope.
 
@@ -138,6 +138,79 @@ Definition c08_select (a : list Z) : list Z :=
   | _ => [-9]
   end.
 
+(* the path side of load/store with a scripted oracle, on already decoded locations.
+   input : layout (0 solidity guard | 1 generic guard) :: sym :: n :: orc[n*n] :: ops...  (n ops)
+             orc row = index of the loading op, column = index of the storing op whose key it is
+             compared with; 0 MustEq 1 MustNeq 2 Unknown  (the answers Exec.check gave, so the
+             oracle may answer differently at different times)
+           op = 0 c1 c2 c3 key is_value val   (store)   | 1 c1 c2 c3 key is_value   (load)
+   a key is modelled as ((index of the op) * 1024 + id) * 2 + is_value
+   output: per load its result  0 | 1 v | 3 c1 c2 c3 | 2 <array> id ; then -1 ; then ex.path, oldest
+           axiom first:  10 n <array of the base> id v | 11 c1 c2 c3 id
+           <array> = 0 c1 c2 c3 (initial array of the chunk) | 1 n 0 0 (array variable n) *)
+Definition key_id (k : Z) : Z := (k / 2) mod 1024.
+Definition key_op (k : Z) : Z := (k / 2) / 1024.
+Definition enc_aref (a : aref) : list Z :=
+  match a with AEmpty (c1, c2, c3) => [0; c1; c2; c3] | AVar n => [1; Z.of_nat n; 0; 0] end.
+Definition enc_pres (r : pres Z Z) : list Z :=
+  match r with
+  | PZero => [0]
+  | PVal v => [1; v]
+  | PSelect a k => 2 :: enc_aref a ++ [key_id k]
+  | PInit (c1, c2, c3) => [3; c1; c2; c3]
+  end.
+Definition enc_axiom (ax : axiom Z Z) : list Z :=
+  match ax with
+  | AxDef n base k v => 10 :: Z.of_nat n :: enc_aref base ++ [key_id k; v]
+  | AxEmpty (c1, c2, c3) k => [11; c1; c2; c3; key_id k]
+  end.
+
+Fixpoint path_ops (fuel : nat) (i : Z) (a : list Z) : option (list (bool * chunkid * Z * Z)) :=
+  match fuel with
+  | O => None
+  | S f =>
+    match a with
+    | [] => Some []
+    | 0 :: c1 :: c2 :: c3 :: k :: kv :: v :: r =>
+        match path_ops f (i + 1) r with
+        | Some os => Some ((true, (c1, c2, c3), (i * 1024 + k) * 2 + kv, v) :: os)
+        | None => None
+        end
+    | 1 :: c1 :: c2 :: c3 :: k :: kv :: r =>
+        match path_ops f (i + 1) r with
+        | Some os => Some ((false, (c1, c2, c3), (i * 1024 + k) * 2 + kv, 0) :: os)
+        | None => None
+        end
+    | _ => None
+    end
+  end.
+
+Definition c08_pathrun (a : list Z) : list Z :=
+  match a with
+  | layout :: sym :: nops :: r =>
+      let n := Z.to_nat nops in
+      let m := firstn (n * n) r in
+      let orc (k k0 : Z) : tri :=
+        match nth (Z.to_nat (key_op k * nops + key_op k0)) m 2 with 0 => MustEq | 1 => MustNeq | _ => Unknown end in
+      let kval (k : Z) : bool := negb (k mod 2 =? 0) in
+      let emits := if layout =? 0 then sol_load_emits_empty else gen_load_emits_empty in
+      match path_ops 200 0 (skipn (n * n) r) with
+      | None => [-9]
+      | Some os =>
+          let step (acc : list Z * pstate Z Z) (o : bool * chunkid * Z * Z) :=
+            match o with
+            | (true, c, k, v) => (fst acc, pstore Z Z (snd acc) c k v)
+            | (false, c, k, _) =>
+                let p := pload Z Z orc kval emits (snd acc) c k in
+                (fst acc ++ enc_pres (fst p), snd p)
+            end in
+          let s0 : pstate Z Z := {| p_symbolic := negb (sym =? 0); p_mapping := []; p_storages := []; p_path := [] |} in
+          let fin := fold_left step os ([], s0) in
+          fst fin ++ [-1] ++ flat_map enc_axiom (rev (p_path Z Z (snd fin)))
+      end
+  | _ => [-9]
+  end.
+
 (* precomputed registry sanity: number of buckets *)
 Definition c08_precomputed_size (_ : list Z) : list Z := [Z.of_nat (List.length precomputed)].
 
@@ -147,6 +220,7 @@ Definition table : list (string * (list Z -> list Z)) :=
     ("c08_eval"%string, c08_eval);
     ("c08_offsetmap"%string, c08_offsetmap);
     ("c08_select"%string, c08_select);
+    ("c08_pathrun"%string, c08_pathrun);
     ("c08_precomputed_size"%string, c08_precomputed_size) ].
 
 Extraction "_build/C08/entries.ml" table.
